@@ -90,4 +90,9 @@ BUILT = {
   level='exploration',
   text='Three stages are built from the tree under test and run as ./chibicc from directories with identical contents. Inputs from the compiler sources, repository tests, nine program generators, two preprocessor generators and the C13 mutator, under 16 option shapes (-S/-E/-c/-fPIC/-f(no-)common/-D/-U/-I/-include/-idirafter/-M family): exit status, stdout, stderr and every output file must be byte-identical between stage1 and stage2 and between two runs of stage1; stage2 and stage3 must emit identical assembly for all nine sources.',
   note='equality is observed on sampled inputs, not derived; object files are compared after stripping debug sections (the assembler records its working directory); signal deaths are skipped (C13 territory)'),
+ 'C15': dict(
+  technique='property-based differential testing of multi-unit programs: Hypothesis-generated declaration sequences and inline call graphs, linked in five configurations; program output (incl. a second thread for thread-local objects) and per-object symbol tables (readelf) vs gcc confirmed by clang',
+  level='exploration',
+  text='1-3 translation units with repeated/tentative/extern/static/thread-local object declarations (also at block scope), plain/static/static inline/extern inline functions with drawn call graphs, function-pointer initializers before or after definitions and redeclarations; built as default, -fno-common, -fPIC, -fPIC + shared library and -static; outputs from the main thread and a second thread and the external symbol tables / set of emitted static inline functions must match both references.',
+  note='trusts gcc/clang linkage semantics and -O0 inline emission; D58 recorded (non-PIC access to TLS in a shared library), the shared configuration builds main with -fPIC'),
 }
